@@ -39,7 +39,7 @@ var dispatchFuncs = []string{"processNextJob", "sendToNextChannel", "freePoolNod
 
 func runC01(c *RunCtx) {
 	richPrograms(c, "rich", 48, 240, richBias{MaxJobs: 8, Cancel: 20, Purge: 15, Script: 4, Batches: 30, Waiters: 1, Expiry: 35},
-		ExploreOpts{Base: 3, K: c.Q(2, 4), Funcs: anchoredOr(c, dispatchFuncs), Pairs: c.Q(20, 120), MaxCases: c.Q(200, 4000)})
+		ExploreOpts{Base: 3, Noise: c.Q(20, 100), K: c.Q(2, 4), Funcs: anchoredOr(c, dispatchFuncs), Pairs: c.Q(20, 120), MaxCases: c.Q(200, 4000)})
 	reaperPrograms(c, 32, 160)
 	tuneRacePrograms(c, 24, 120)
 	runC01Burst(c)
@@ -47,7 +47,7 @@ func runC01(c *RunCtx) {
 
 func runC03(c *RunCtx) {
 	richPrograms(c, "rich", 48, 240, richBias{MaxJobs: 8, Cancel: 25, Purge: 10, Script: 3, Batches: 20, Waiters: 0, Outcomes: true, Expiry: 40},
-		ExploreOpts{Base: 3, K: c.Q(2, 4), Funcs: anchoredOr(c, dispatchFuncs), Pairs: c.Q(20, 120), MaxCases: c.Q(200, 4000)})
+		ExploreOpts{Base: 3, Noise: c.Q(20, 100), K: c.Q(2, 4), Funcs: anchoredOr(c, dispatchFuncs), Pairs: c.Q(20, 120), MaxCases: c.Q(200, 4000)})
 	gatePrograms(c, "gate", 32, 160, gateBias{Adapters: true, MaxOps: 12, Expiry: 30, Tune: true, Life: true}, gateOpts(c))
 	reaperPrograms(c, 32, 160)
 	notifyPrograms(c, 40, 200)
@@ -67,14 +67,14 @@ func batchPrograms(c *RunCtx, nq, nt int) {
 		c.Program(fmt.Sprintf("batch/%d", v), func(p *Prog) {
 			cfg := drawBatch(p.Rng, false)
 			p.Explore(func(pl Plan) *Result { return epBatch(c, cfg) },
-				ExploreOpts{Base: 4, K: c.Q(2, 4), Funcs: anchoredOr(c, batchFuncs), Pairs: c.Q(15, 100), MaxCases: c.Q(120, 2500)})
+				ExploreOpts{Base: 4, Noise: c.Q(15, 80), K: c.Q(2, 4), Funcs: anchoredOr(c, batchFuncs), Pairs: c.Q(15, 100), MaxCases: c.Q(120, 2500)})
 		})
 	}
 }
 
 func runC09(c *RunCtx) {
 	richPrograms(c, "rich", 96, 400, richBias{MaxJobs: 8, Cancel: 5, Purge: 0, Script: 6, Batches: 10, Waiters: 0, Expiry: 10, PausesOnly: true},
-		ExploreOpts{Base: 3, K: c.Q(2, 4), Funcs: anchoredOr(c, dispatchFuncs), Pairs: c.Q(20, 120), MaxCases: c.Q(200, 4000)})
+		ExploreOpts{Base: 3, Noise: c.Q(20, 100), K: c.Q(2, 4), Funcs: anchoredOr(c, dispatchFuncs), Pairs: c.Q(20, 120), MaxCases: c.Q(200, 4000)})
 	runC09Extra(c)
 }
 
@@ -84,13 +84,13 @@ func runC10Extra(c *RunCtx) { purgeBurstPrograms(c, 16, 64) }
 
 func runC10(c *RunCtx) {
 	richPrograms(c, "rich", 96, 400, richBias{MaxJobs: 8, Cancel: 60, Purge: 40, Script: 2, Batches: 20, Waiters: 1, Expiry: 10},
-		ExploreOpts{Base: 3, K: c.Q(2, 4), Funcs: anchoredOr(c, dispatchFuncs), Pairs: c.Q(20, 120), MaxCases: c.Q(200, 4000)})
+		ExploreOpts{Base: 3, Noise: c.Q(20, 100), K: c.Q(2, 4), Funcs: anchoredOr(c, dispatchFuncs), Pairs: c.Q(20, 120), MaxCases: c.Q(200, 4000)})
 	runC10Extra(c)
 }
 
 func runC16(c *RunCtx) {
 	richPrograms(c, "rich", 96, 400, richBias{MaxJobs: 6, Cancel: 25, Purge: 10, Script: 2, Batches: 0, Waiters: 3, Samplers: true, Expiry: 10},
-		ExploreOpts{Base: 3, K: c.Q(2, 4), Funcs: anchoredOr(c, dispatchFuncs), Pairs: c.Q(20, 120), MaxCases: c.Q(200, 4000)})
+		ExploreOpts{Base: 3, Noise: c.Q(20, 100), K: c.Q(2, 4), Funcs: anchoredOr(c, dispatchFuncs), Pairs: c.Q(20, 120), MaxCases: c.Q(200, 4000)})
 }
 
 func runC17(c *RunCtx) {
@@ -121,7 +121,7 @@ func gatePrograms(c *RunCtx, fam string, nq, nt int, b gateBias, o ExploreOpts) 
 }
 
 func gateOpts(c *RunCtx) ExploreOpts {
-	return ExploreOpts{Base: 2, K: c.Q(2, 4), Funcs: anchoredOr(c, dispatchFuncs), Pairs: c.Q(15, 100), MaxCases: c.Q(150, 4000)}
+	return ExploreOpts{Base: 2, Noise: c.Q(10, 60), K: c.Q(2, 4), Funcs: anchoredOr(c, dispatchFuncs), Pairs: c.Q(15, 100), MaxCases: c.Q(150, 4000)}
 }
 
 func runC02(c *RunCtx) {
